@@ -171,8 +171,44 @@ class Ctx:
         m = self.eng.check_model(neg)
         if m is None:
             self.res.proved += 1
+            self._second_solver(neg)
             return True
         return self._fail(label, neg, m, info)
+
+    def _second_solver(self, neg):
+        """two-solver diff: a sample of the 'unsat' verdicts of z3 is re-decided by the cvc5 binary on
+        the exported SMT-LIB2 text (path condition + negated assertion).  cvc5 'sat' = the two solvers
+        disagree -> harness error; timeout/unknown/error lines are counted as not cross-checked."""
+        quota = _XCHECK.get('quota', 0)
+        key = self.job.get('id')
+        if not quota or _XCHECK['done'].get(key, 0) >= quota or not _XCHECK.get('bin'):
+            return
+        _XCHECK['done'][key] = _XCHECK['done'].get(key, 0) + 1
+        import subprocess
+        import tempfile
+        s2 = z3.Solver()
+        s2.add(self.eng.solver.assertions())
+        s2.add(neg)
+        text = '(set-logic QF_BV)\n' + s2.to_smt2()
+        with tempfile.NamedTemporaryFile('w', suffix='.smt2', dir='/var/tmp', delete=False) as f:
+            f.write(text)
+            path = f.name
+        try:
+            p = subprocess.run([_XCHECK['bin'], '--tlimit=20000', path], capture_output=True, text=True, timeout=40)
+            out = (p.stdout or '').strip().splitlines()
+            first = out[0].strip() if out else ''
+            if '(error' in (p.stdout or '') or '(error' in (p.stderr or ''):
+                first = 'error'
+        except Exception:
+            first = 'timeout'
+        finally:
+            try:
+                os.unlink(path)
+            except OSError:
+                pass
+        if first == 'sat':
+            raise HarnessError('solver disagreement: z3 unsat, cvc5 sat on an exported query of job %s' % key)
+        self.note('second-solver:' + (first if first in ('unsat',) else 'not-decided(%s)' % (first or 'empty')))
 
     def violation(self, label, info=None, model=None, candidate=False):
         """the path itself is a violation (e.g. foreign exception)"""
@@ -220,9 +256,13 @@ class Ctx:
 # ---------------------------------------------------------------------------
 _STATE = {}
 _TIMEOUT_SERVER = []
+_XCHECK = {'quota': 0, 'done': {}, 'bin': None}
 
 
-def _worker_init(modname, kf, seed):
+def _worker_init(modname, kf, seed, xquota=0):
+    import shutil
+    _XCHECK['quota'] = xquota
+    _XCHECK['bin'] = shutil.which('cvc5')
     _STATE['mod'] = importlib.import_module(modname)
     _STATE['kf'] = kf
     _STATE['seed'] = seed
@@ -310,7 +350,9 @@ def run_check(prop, modname, jobs, tier, seed, level='model_checking', functions
         budget_s = float(os.environ.get('VERIF_THOROUGH_BUDGET', '2400'))
     budget_cut = False
     finished_jobs = set()
-    with ctxmp.Pool(nproc, initializer=_worker_init, initargs=(modname, kf, seed)) as pool:
+    # second solver (cvc5 binary): re-decides the first proof(s) of a deterministic sample of jobs
+    xquota = int(os.environ.get('VERIF_SECOND_SOLVER', '2' if tier == 'thorough' else '1'))
+    with ctxmp.Pool(nproc, initializer=_worker_init, initargs=(modname, kf, seed, xquota)) as pool:
         outstanding = {}
 
         def submit(job, prefixes):
@@ -483,7 +525,9 @@ def run_check(prop, modname, jobs, tier, seed, level='model_checking', functions
         'jobs': len(jobs),
         'assertions_proved_unsat': agg['proved'],
         'solver_time_s': round(agg['solver_time'], 2),
-        'solver': 'z3 %s (QF_BV)' % z3.get_version_string(),
+        'solver': 'z3 %s (QF_BV) decides every query; the cvc5 binary re-decides a sample of the unsat verdicts '
+                  '(exported SMT-LIB2: path condition + negated assertion)' % z3.get_version_string(),
+        'second_solver': {k.split(':', 1)[1]: v for k, v in agg['notes'].items() if k.startswith('second-solver:')},
         'functions_encoded': list(functions),
         'bounds': bounds or {},
         'outside_claim': list(outside),
